@@ -9,6 +9,7 @@ import RelicVerif.Lemmas.ShaStream
 import RelicVerif.Lemmas.Blake2s
 import RelicVerif.Lemmas.Aes
 import RelicVerif.Lemmas.AesTables
+import RelicVerif.Gen.MdConsts
 
 namespace Relic.Props.C14
 open Relic.Spec Relic.Model Relic.Lemmas.Md
@@ -297,6 +298,17 @@ theorem aes_table_round_conforms (x0 x1 x2 x3 x4 x5 x6 x7 x8 x9 x10 x11 x12 x13 
        (Rijndael.getu32 r 0, Rijndael.getu32 r 4, Rijndael.getu32 r 8, Rijndael.getu32 r 12)) :=
   Relic.Lemmas.AesTables.encHalf_spec x0 x1 x2 x3 x4 x5 x6 x7 x8 x9 x10 x11 x12 x13 x14 x15 k0 k1 k2 k3 k4 k5 k6 k7 k8 k9 k10 k11 k12 k13 k14 k15
     rk o h0 h1 h2 h3
+
+/-- the constant tables of the hash implementations, as extracted from the C text on every run (Gen/MdConsts.lean: K[64] and
+    the initial values of sha224-256.c, K[80] and the initial values of sha384-512.c, blake2s_IV and blake2s_sigma of
+    blake2s-ref.c), are the constants of the FIPS 180-4 / RFC 7693 definitions the theorems above speak about -/
+theorem md_constants_conform :
+    Relic.Gen.MdConsts.sha256K = Spec.Sha256.K ∧ Relic.Gen.MdConsts.sha224H0 = Spec.Sha256.H0_224.toArray ∧
+    Relic.Gen.MdConsts.sha256H0 = Spec.Sha256.H0.toArray ∧ Relic.Gen.MdConsts.sha512K = Spec.Sha512.K ∧
+    Relic.Gen.MdConsts.sha384H0 = Spec.Sha512.H0_384.toArray ∧ Relic.Gen.MdConsts.sha512H0 = Spec.Sha512.H0_512.toArray ∧
+    Relic.Gen.MdConsts.blake2sIV = Relic.Spec.Blake2s.IV ∧ Relic.Gen.MdConsts.blake2sSigma = Relic.Spec.Blake2s.sigma :=
+  ⟨Relic.Gen.MdConsts.sha256K_eq, Relic.Gen.MdConsts.sha224H0_eq, Relic.Gen.MdConsts.sha256H0_eq, Relic.Gen.MdConsts.sha512K_eq,
+   Relic.Gen.MdConsts.sha384H0_eq, Relic.Gen.MdConsts.sha512H0_eq, Relic.Gen.MdConsts.blake2sIV_eq, Relic.Gen.MdConsts.blake2sSigma_eq⟩
 
 /-- non-vacuity: PKCS#7 of a 3-byte message; the padding split of SHA-256 at 55/56 bytes -/
 example : Aes.pkcs7Pad [1, 2, 3] = [1, 2, 3] ++ List.replicate 13 13 := by decide
